@@ -101,6 +101,7 @@ CHECKS["C03"] = {
         J("exh2", "c03", "TestExhaustive2", None, None, 2),
         J("exh3q", "c03", "TestExhaustive3Quick", None, None, 2, tiers=["quick"]),
         J("exh3", "c03", "TestExhaustive3", None, None, 16, tiers=["thorough"]),
+        J("exh3all", "c03", "TestExhaustive3All", None, None, 16, tiers=["thorough"], timeout={"thorough": 3600}),
         J("known", "c03", "TestKnownRetryAfterRefusedLazyCreation", None, None),
     ],
     "assumptions": [
